@@ -427,7 +427,7 @@ pub fn run(_env: &Env, run: &Run) -> (Stats, Coverage) {
     let (known, unknown) = shared_state_inventory();
     let instrumented = std::env::var("PMC_SCHED_MODE").map(|m| m == "instrumented").unwrap_or(false);
     for u in &unknown {
-        let code = u.splitn(3, ": ").nth(1).unwrap_or(u);
+        let code = u.splitn(2, ": ").nth(1).unwrap_or(u);
         let by_shim = ["Atomic", "Mutex", "RwLock", "OnceLock", "Once::", "LazyLock", "sync::atomic", "sync::{"].iter().any(|n| code.contains(n))
             && !code.contains("static mut")
             && !code.contains("UnsafeCell");
